@@ -26,7 +26,8 @@ PROPS["C13"] = dict(
           "csg_density (executable, ASan build): XML topology + .gro trajectory of 1..9 beads x 1..3 frames, boxes k/8 nm, --axis x|y|z, ten step "
           "choices (nbin 1..100), beads inside, +-1,2,50,100 periods away, exactly at -mL / +mL, on bin centres and edges; oracle in exact rational "
           "arithmetic: density_i*area*step*frames/scale == weight of the beads of bin i (mass or number), sum == total weight, clean sanitizer run; "
-          "non-trivial = >=1 bead outside the box with a decided bin."),
+          "non-trivial = >=1 bead outside the box with a decided bin."
+          " legacy also covers histories: in 30 % of the cases the same Histogram object has processed another data set before."),
     assumptions=COMMON_ASSUME + [
         "HistogramNew with nbins=1 uses step=1 (implementation convention, the statement is silent); periodic nbins=1 maps everything to bin 0",
         "values whose rounding band exceeds half a bin (|q| > 2.5e14) are only checked for weight conservation and memory safety",
